@@ -242,10 +242,11 @@ def ownership_rules(prog, res, rule_prefix='own'):
                     continue
                 ncopies += 1
                 # sources that are fresh default temporaries cannot alias anything
-                if srcs and all(is_fresh_temp(f, s, q) for s in srcs):
+                multi = c.get('class') == vecq and c['name'] == 'resize'   # one value copied into MANY elements: they share it among themselves
+                if srcs and not multi and all(is_fresh_temp(f, s, q) for s in srcs):
                     res.ok(R('no-alias-copy'), what, f.loc(n['id']), 'source is a freshly default-constructed temporary', function=f.sig, expr='%s@%d' % (what, n['id']))
                     continue
-                if srcs and all(is_fresh_local(f, s, q, n['id']) for s in srcs):
+                if srcs and not multi and all(is_fresh_local(f, s, q, n['id']) for s in srcs):
                     res.ok(R('no-alias-copy'), what, f.loc(n['id']), 'source is a local %s built in this function from fresh allocations only and handed over whole' % q.split('::')[-1],
                            function=f.sig, expr='%s@%d' % (what, n['id']))
                     continue
